@@ -440,8 +440,9 @@ def _impl_opts(case):
     lv = _opts_level(case)
     if lv is None:
         return ["SKIP"]
+    prune_ok = (pre or {}).get("prune_ok", len(lv["raw"]) <= 1 or lv["o"]["rule"].rc.raw.number_of_nodes() <= MAX_RULE)
     return [lv["nonneg"], lv["sep"], _valence_py(lv["o"]["tpl"], lv["o"]["rule"], bool(case["invert"])),
-            [S([K.map_obs(m) for m in lv["raw"]])], [[K.map_obs(m) for m in lv["mappings"]]]]
+            [S([K.map_obs(m) for m in lv["raw"]])], [[K.map_obs(m) for m in lv["mappings"]]] if prune_ok else []]
 
 
 def _prepare_opts(case):
@@ -453,7 +454,10 @@ def _prepare_opts(case):
     if o["host"].number_of_nodes() > (80 if case["opts"][0] == "nraw" else CHK_HOST) or len(lv["raw"]) > MAX_RAW:
         case["pre"] = {"skip": "too large for the model's own enumeration"}
         return case
-    case["pre"] = {"G": _host_json(o["G"]), "H": _host_json(o["H"]), "raw": [K.map_pairs(m) for m in lv["raw"]], "mode": o["mode"], "thr": lv["thr"]}
+    # the model prunes the raw list (enumerating the rule's automorphisms) only for small rules or a single raw match
+    prune_ok = len(lv["raw"]) <= 1 or o["rule"].rc.raw.number_of_nodes() <= MAX_RULE
+    case["pre"] = {"G": _host_json(o["G"]), "H": _host_json(o["H"]), "raw": [K.map_pairs(m) for m in lv["raw"]], "mode": o["mode"], "thr": lv["thr"],
+                   "prune_ok": bool(prune_ok)}
     return case
 
 
@@ -461,9 +465,10 @@ def _coq_opts(case):
     pre = case["pre"]
     thr, pref = pre["thr"], case["opts"][1]
     strat = "(SK.model.C06_Model.SStr %s)" % K.cl([K.cN(b) for b in case.get("strategy", "all").encode()])
-    return "run_matching_opts %s %s %s %s %s %s %s true (Some %s)" % (
+    return "run_matching_opts %s %s %s %s %s %s %s true %s" % (
         K.cb(case["core"]), K.cb(case["invert"]), _c_hostj(pre["G"]), _c_hostj(pre["H"]), strat,
-        "None" if thr is None else "(Some %s)" % K.cN(thr), K.cb(pref), OB.c_maps(pre["raw"]))
+        "None" if thr is None else "(Some %s)" % K.cN(thr), K.cb(pref),
+        ("(Some %s)" % OB.c_maps(pre["raw"])) if pre.get("prune_ok", True) else "None")
 
 
 # ------------------------------------------------------------------ OBJECT cases (harness/gen/c04_obj.py)
@@ -512,6 +517,10 @@ def _prepare_object(case):
         return case
     if len(rec["raw"]) > OB.MAX_RAW:
         case["pre"] = {"skip": "more than %d raw matches" % OB.MAX_RAW}
+        return case
+    if len(rec["raw"]) > 1 and tpl.number_of_nodes() > MAX_RULE:
+        # the pruning enumerates the automorphisms of the rule inside Coq (C11's verified enumerator): minutes for a full ITS of 50+ atoms
+        case["pre"] = {"skip": "several raw matches of a rule with more than %d atoms (automorphism enumeration in the model too slow)" % MAX_RULE}
         return case
     pre = {"raw": rec["raw"], "sers": rec["sers"]}
     if case["obj"] == "crash":
